@@ -702,6 +702,48 @@ func polLongBackoff(yield func(polCase) bool) {
 	}
 }
 
+// polManyCycles: a long-lived task that is re-established again and again -
+// 1..300 rounds of (task fails recoverably, 0..2 failing dial attempts, dial
+// succeeds) within ONE Dial call - then ends (nil, fatal error or
+// cancellation). Nothing in the statement bounds the number of recoveries.
+func polManyCycles(real bool) func(yield func(polCase) bool) {
+	return func(yield func(polCase) bool) {
+		for _, rounds := range []int{1, 2, 3, 10, 49, 50, 51, 52, 60, 101, 300} {
+			for _, cause := range []int{tLinkChange, tSyscall} {
+				for _, failing := range []int{0, 1, 2} {
+					for _, end := range []int{tNil, tOther, -1} {
+						script := []int{dOK}
+						for r := 0; r < rounds; r++ {
+							c := cause
+							if r%3 == 2 {
+								c = tLinkChange + tSyscall - cause // mix the two recoverable causes
+							}
+							script = append(script, c)
+							for f := 0; f < failing; f++ {
+								script = append(script, []int{dNotReady, dSyscall}[(r+f)%2])
+							}
+							script = append(script, dOK)
+						}
+						c := polCase{TaskNS: int64(10 * time.Millisecond), Mode: int(Advertise), Autoconf0: rounds%2 == 0, RealDial: real}
+						if end >= 0 {
+							script = append(script, end)
+						} else {
+							// cancelled while the last task runs
+							c.Script = script
+							c.CancelNS = int64(polModel(c).ReturnAt) - int64(5*time.Millisecond)
+							c.CancelNil = rounds%2 == 1
+						}
+						c.Script = script
+						if !yield(c) {
+							return
+						}
+					}
+				}
+			}
+		}
+	}
+}
+
 var polCancels = []int64{0, 1, int64(50*time.Millisecond) + 1, int64(125*time.Millisecond) + 1, int64(300*time.Millisecond) + 1, int64(900*time.Millisecond) + 1, int64(2*time.Second) + 1}
 
 func TestVerif_C10policy(t *testing.T) {
@@ -719,6 +761,7 @@ func TestVerif_C10policy(t *testing.T) {
 	}
 	verifkit.Enumerate(k, t, fmt.Sprintf("policy-executions-depth<=%d", depth), true, polEnumerate(depth, polCancels, false), prop)
 	verifkit.Enumerate(k, t, "attempt-bound-48..53-failures", true, polLongBackoff, prop)
+	verifkit.Enumerate(k, t, "many-recovery-rounds-in-one-dial", true, polManyCycles(false), prop)
 	verifkit.Rapid(k, t, "policy-random-depth<=60", k.N(3000, 400000), polGen(false), prop)
 }
 
@@ -842,7 +885,10 @@ func c11Prop(t *testing.T, k *verifkit.Kit) func(c polCase) error {
 			}
 		}
 		got := polExecute(t, c)
-		for _, e := range got.Trace.Events {
+		// classified by the model's trace, not the observed one: where a cancellation and a
+		// zero-length timer are ready together Go's select picks at random, and the counts
+		// reported as evidence should not depend on that
+		for _, e := range polModel(c).Events {
 			if strings.HasPrefix(e.What, "dial:") {
 				dials++
 			}
@@ -903,5 +949,6 @@ func TestVerif_C11(t *testing.T) {
 		depth = 5
 	}
 	verifkit.Enumerate(k, t, fmt.Sprintf("executions-depth<=%d-x-state-failures", depth), true, c11Enumerate(depth), prop)
+	verifkit.Enumerate(k, t, "many-recovery-rounds-in-one-dial", true, polManyCycles(true), prop)
 	verifkit.Rapid(k, t, "random-sequences-x-state-failures", k.N(3000, 1000000), polGen(true), prop)
 }
